@@ -444,4 +444,11 @@ def lowerByte (b : UInt8) : UInt8 := if 0x41 ≤ b ∧ b ≤ 0x5a then b + 0x20 
 def mkEnum (ci : Bool) (vals : List Bytes) : Ty :=
   if vals.isEmpty then .enum false [] else .enum ci (if ci then vals.map (·.map lowerByte) else vals)
 
+/-- `NewTupleType`: no types and no size is the empty tuple `Tuple[0, 0]` (pcore fix 902262f); every other
+    combination is kept as given (`Tuple[0, default]` without types is the default tuple, the same term) -/
+def mkTup (ts : List Ty) (size : Option (Int × Int)) : Ty :=
+  match ts, size with
+  | [], none => .tup [] (some (0, 0))
+  | ts, sz => .tup ts sz
+
 end Pcore.ValueEq
